@@ -180,6 +180,13 @@ def run(rep):
     ok = len(ir) == 1 and bool(broker.has_guard(h, ir[0].bb, r"^Ok=discr\(Channel::send_item\(self\.channels\[req\.cookie\]\.0, id\)\)$")) and all_match(ir[0].target, r"^self\.conns\[Channel::send_item\(self\.channels\[req\.cookie\]\.0, id\)\.0\.0\]") \
         and all_match(ir[0].fields.get("value", []), r"^req\.value$") and all_match(ir[0].fields.get("cookie", []), r"^req\.cookie$")
     rep.check(ok, "C05-R2", h.def_, "forward-on-ok", "ItemReceived must be forwarded unchanged to the receiver named by Channel::send_item, only on its Ok edge", detail={"sites": len(ir)})
+    # ... and it IS forwarded: from the Ok edge no path leaves the handler without the send (unless the receiver's connection is gone)
+    okr = len(ir) == 1
+    if okr:
+        oke = h.edges_matching([r"^Ok=discr\(Channel::send_item\(self\.channels\[req\.cookie\]\.0, id\)\)$"])
+        gone = h.edges_matching([r"^None=discr\(self\.conns\[Channel::send_item\(.*\)\.0\.0\]\)$"])
+        okr = len(oke) == 1 and not any(set(h.exits()) & h.reachable(v, without_nodes={ir[0].bb}, without_edges=gone) for (_u, v) in oke)
+    rep.check(okr, "C05-R2", h.def_, "item-always-forwarded", "an item accepted by Channel::send_item (credit already consumed) must be forwarded to the receiver on every path, unless the receiver's connection is gone", detail={})
     rce = [c for c in h.calls if c.name == "remove_channel_end"]
     by_err = {}
     for c in rce:
@@ -208,6 +215,12 @@ def run(rep):
     fwd = [s for s in broker.sends(hb) if s.msg_type == "AddChannelCapacity"]
     ok = len(fwd) == 1 and bool(broker.has_guard(hb, fwd[0].bb, r"^Ok=discr\(Channel::add_capacity\(")) and bool(broker.has_guard(hb, fwd[0].bb, r"^Some=discr\(Channel::add_capacity\(.*\)\.0\)$")) \
         and all_match(fwd[0].fields.get("capacity", []), r"^Channel::add_capacity\(.*\)\.0\.0\.1$") and all_match(fwd[0].target, r"^self\.conns\[Channel::add_capacity\(.*\)\.0\.0\.0\]")
+    okr = len(fwd) == 1
+    if okr:
+        se = hb.edges_matching([r"^Some=discr\(Channel::add_capacity\(.*\)\.0\)$"])
+        gone = hb.edges_matching([r"^None=discr\(self\.conns\[Channel::add_capacity\(.*\)\.0\.0\.0\]\)$"])
+        okr = len(se) == 1 and not any(set(hb.exits()) & hb.reachable(v, without_nodes={fwd[0].bb}, without_edges=gone) for (_u, v) in se)
+    rep.check(okr, "C05-R3", hb.def_, "grant-always-forwarded", "credit that Channel::add_capacity decided to pass on must reach the sender on every path, unless the sender's connection is gone (otherwise the sender starves with credit granted)", detail={})
     rep.check(ok, "C05-R3", hb.def_, "grant-forwarded-as-computed", "the credit announced to the sender must be the amount and the connection computed by Channel::add_capacity", detail={"sites": len(fwd)})
 
     # ---- R4 notifications / removal -----------------------------------------------------------------------
